@@ -23,7 +23,9 @@ RULE = ("seeded generator: histories of 10-70 operations on udpSessionManager.Ru
 ASSUMPTIONS = [
     "a closed UDPConn returns an error from every later ReadFrom/WriteTo, and ReadFrom blocked on it returns (socket semantics, modelled in the LTS guards)",
     "the ticker fires every idleCleanupInterval and the sweeper consumes a tick before the clock passes the next one (theorems are relative to tick times)",
-    "SendMessage / WriteTo / Hook / UDP return (do not block forever)",
+    "SendMessage / WriteTo / Hook / UDP return (do not block forever); a slow Hook / UDP() is exercised up to the first sweep that selects the entry being "
+    "dialed: the sweeper then waits for connLock, a mutex wait is not a durable block for testing/synctest, so the fake dial returns at that fake instant "
+    "(after giving the sweeper real time to reach CloseWithErr) instead of later",
     "fragment reassembly abstracted to complete message / ignored fragment (C05); addresses, hook rewrites and the decision cache are C08's",
 ]
 TRUSTED = ["modelled rather than verified: core/server/udp.go session manager, entry, reply loop, sweeper (hand-written LTS in coq/model/C07_UDPSessions.v); "
@@ -276,6 +278,8 @@ def _feat(c, o):
 def klass(c, o):
     if o.get("hang"):
         return "hang"
+    if o.get("skipped"):
+        return "not-run-after-two-hangs"
     if o.get("leak"):
         return "leak"
     if o.get("panic"):
@@ -316,6 +320,8 @@ def search(ctx, disagreeing):
 def run(ctx):
     import random
     import sys
+    global PER_SHARD
+    PER_SHARD = 15 if ctx.tier == "quick" else 30      # quick: 5 shards side by side; thorough: few large shards
     extra = []
     race_cov = None
     if ctx.tier == "thorough":
@@ -364,6 +370,9 @@ LEVEL_TEXT = ("Machine-checked Coq theorems over a hand-written labelled transit
               "run by replaying ~70 recorded boundary logs of the real session manager (testing/synctest, fake clock, injected faults, "
               "unsynchronised bursts) against it inside the kernel.")
 LEVEL_NOTE = ("Trusted: Coq kernel + vm_compute; hand-written LTS (tie is sampled trace acceptance + regenerated Params); python/Go glue. "
+              "initConn (closed check, hook, New, UDP(), socket install under connLock) is ONE action of the LTS taken when the dial returns; time and sweeps "
+              "pass with the receive loop inside it (acceptor: quiescent at RInit), so a log in which the entry is closed inside the dial has no run. "
+              "A history that does not finish in 30 s of real time (mutex wait on a sleeping holder, self-deadlock) is reported as a violation with its replay. "
               "No axioms. Not proved: real time.Ticker accuracy (theorems are relative to tick times); goroutine exit is observed by synctest, "
               "not proved; preemption inside one atomic section.")
 TECHNIQUE = "Coq proof (inductive invariants over all runs of an atomic-section LTS) + trace-acceptance correspondence check in vm_compute"
